@@ -837,8 +837,8 @@ def run_helpers(job):
             check(name + "(TypedDict): one keyword-only parameter per hint, in order, annotated with the hint",
                   [[n_, p.kind.name, p.annotation] for n_, p in s.parameters.items()],
                   [[k, "KEYWORD_ONLY", v] for k, v in hints.items()], repr(td))
-            check(name + "(TypedDict): keys are required iff the TypedDict is total",
-                  [p.default is inspect.Parameter.empty for p in s.parameters.values()], [bool(td.__total__)] * len(hints), repr(td))
+            check(name + "(TypedDict): a key is required iff it is in __required_keys__",
+                  [p.default is inspect.Parameter.empty for p in s.parameters.values()], [k in td.__required_keys__ for k in hints], repr(td))
     for t, exp in ((tuple[int, str], [["arg0", "POSITIONAL_ONLY", int], ["arg1", "POSITIONAL_ONLY", str]]),
                    (typing.Tuple[int, str], [["arg0", "POSITIONAL_ONLY", int], ["arg1", "POSITIONAL_ONLY", str]]),
                    (tuple[int, ...], [["args", "VAR_POSITIONAL", int]]), (typing.Tuple[int, ...], [["args", "VAR_POSITIONAL", int]]),
